@@ -16,7 +16,7 @@ ID = 'C13'
 LEVEL = 'exploration'
 
 REGS = ['a', 'b', 'sp']
-LABELS = {'lbl': 9, 'foo': 7, 'FOO': 11}
+LABELS = {'lbl': 9, 'foo': 7, 'FOO': 11, 'zed': 5}
 
 # ---- operand texts and their categories -----------------------------------------------------------
 # category: (form, register or None, value or None)
@@ -24,7 +24,8 @@ TEXTS = {
     'a': ('reg', 'a', None), 'A': ('reg', 'a', None), 'b': ('reg', 'b', None), 'sp': ('reg', 'sp', None),
     '5': ('num', None, 5), 'lbl': ('num', None, 9),
     'FOO': ('num', None, 11),       # a constant whose name is an enumeration key in another letter case: not the key (written before it)
-    'foo': ('key', None, 7), '3': ('num', None, 3),
+    'foo': ('key', None, 7),
+    'zed': ('keyz', None, 5),       # an enumeration key whose argument value is 0 (and a constant of value 5) '3': ('num', None, 3),
     '[5]': ('ind_num', None, 5), '[lbl]': ('ind_num', None, 9), '[[5]]': ('def_num', None, 5),
     '[a]': ('ind_reg', 'a', 0), '[a+1]': ('ind_reg', 'a', 1), '[b]': ('ind_reg', 'b', 0),
     'a+1': ('idx_reg', 'a', 1), '{5}': ('curly', None, 5),
@@ -50,10 +51,10 @@ alt('reg_a', 1, lambda c: {'type': 'register', 'register': 'a', 'bytecode': {'va
 alt('reg_b', 1, lambda c: {'type': 'register', 'register': 'b', 'bytecode': {'value': c, 'size': 4}},
     lambda cat: (True, None) if cat[0] == 'reg' and cat[1] == 'b' else None)
 alt('numeric', 2, lambda c: {'type': 'numeric', 'bytecode': {'value': c, 'size': 4}, 'argument': _arg8()},
-    lambda cat: (True, cat[2]) if cat[0] in ('num', 'key') else None)
+    lambda cat: (True, cat[2]) if cat[0] in ('num', 'key', 'keyz') else None)
 alt('numeric_va', 2, lambda c: {'type': 'numeric', 'bytecode': {'value': c, 'size': 4},
                                  'argument': {'size': 8, 'byte_align': True, 'valid_address': True}},
-    lambda cat: (True, cat[2]) if cat[0] in ('num', 'key') else None)
+    lambda cat: (True, cat[2]) if cat[0] in ('num', 'key', 'keyz') else None)
 alt('ind_num_va', 0, lambda c: {'type': 'indirect_numeric', 'bytecode': {'value': c, 'size': 4},
                                  'argument': {'size': 8, 'byte_align': True, 'valid_address': True}},
     lambda cat: (True, cat[2]) if cat[0] == 'ind_num' else None)
@@ -67,16 +68,16 @@ alt('ind_reg_a', 0, lambda c: {'type': 'indirect_register', 'register': 'a', 'by
 alt('idx_reg_a', 0, lambda c: {'type': 'indexed_register', 'register': 'a', 'bytecode': {'value': c, 'size': 4},
                                'index_operands': {'i': {'type': 'numeric', 'argument': _arg8()}}},
     lambda cat: (True, cat[2]) if cat[0] == 'idx_reg' and cat[1] == 'a' else None)
-alt('enum_foo', 1, lambda c: {'type': 'enumeration', 'bytecode': {'size': 4, 'value_dict': {'foo': c, 'zap': c}},
-                              'argument': {'size': 8, 'byte_align': True, 'value_dict': {'foo': 0x66, 'zap': 0x67}}},
-    lambda cat: (True, 0x66) if cat[0] == 'key' else None)
+alt('enum_foo', 1, lambda c: {'type': 'enumeration', 'bytecode': {'size': 4, 'value_dict': {'foo': c, 'zap': c, 'zed': c}},
+                              'argument': {'size': 8, 'byte_align': True, 'value_dict': {'foo': 0x66, 'zap': 0x67, 'zed': 0}}},
+    lambda cat: (True, 0x66) if cat[0] == 'key' else (True, 0) if cat[0] == 'keyz' else None)      # zed: a key whose value is 0
 alt('address', 2, lambda c: {'type': 'address', 'bytecode': {'value': c, 'size': 4}, 'argument': _arg8()},
-    lambda cat: (True, cat[2]) if cat[0] in ('num', 'key') else None)
+    lambda cat: (True, cat[2]) if cat[0] in ('num', 'key', 'keyz') else None)
 alt('relative', 2, lambda c: {'type': 'relative_address', 'bytecode': {'value': c, 'size': 4}, 'use_curly_braces': True,
                               'argument': {'size': 8, 'byte_align': True}},
     lambda cat: (True, cat[2]) if cat[0] == 'curly' else None)     # offset = target - address; statements with {..} run at address 0
 alt('numbc', 2, lambda c: {'type': 'numeric_bytecode', 'bytecode': {'size': 4, 'min': 0, 'max': 15}},
-    lambda cat: ('VALUE', None) if cat[0] in ('num', 'key') else None)
+    lambda cat: ('VALUE', None) if cat[0] in ('num', 'key', 'keyz') else None)
 
 alt('EMPTY', 0, lambda c: {'type': 'empty', 'bytecode': {'value': c, 'size': 4}}, lambda cat: None)      # consumes no operand text
 
